@@ -33,6 +33,14 @@ func runC16(c *engine.Ctx) {
 	r3 := c.Rule("R3", "shutdown drains until extraction fails; enqueue/extract keep 'signalled iff builders remain'", 2)
 	r4 := c.Rule("R4", "no enqueue after the final drain: appends to builders test a shutdown indicator under the builders lock", 1)
 
+	// a queue that has ended must not be handed out again: messages queued on it would never be sent nor reported
+	r5 := c.Rule("R5", "a queue that has ended is removed from the peer table (whenever it is still the one listed), so no message is queued on a dead queue", 1)
+	if table := c.P.Field("peermanager", "PeerManager", "peerProcesses"); table != nil {
+		c17ShutdownCallback(c, r5, c.P.FuncsIn("peermanager"), table)
+	} else {
+		c.AnchorMissing(r5, "peermanager.PeerManager.peerProcesses")
+	}
+
 	m := loadMQ(c, r1)
 	if !m.ok {
 		return
@@ -136,6 +144,63 @@ func runC16(c *engine.Ctx) {
 					"after each drained message control returns to the extract step; the loop ends only when extraction fails",
 					"the shutdown drain can stop after a successfully extracted message while builders may remain: their subscribers are never notified")
 			}
+		}
+	}
+
+	// R3e: a failing extract means "nothing (more) to send": it either found no builders or took the head off first.
+	// (If it could fail while leaving a builder in place, the run loop and the shutdown drain would both stop in
+	// front of messages queued behind it: never sent, never reported.)
+	{
+		var pop *ssa.Store
+		for _, st := range engine.StoresTo([]*ssa.Function{m.extract}, m.builders) {
+			if sl, ok := st.Val.(*ssa.Slice); ok && sl.Low != nil {
+				pop = st
+			}
+		}
+		okFail, nFail := true, 0
+		var at token.Pos
+		if pop != nil {
+			for _, r := range engine.Returns(m.extract) {
+				if len(r.Results) == 0 {
+					continue
+				}
+				ev := engine.ReturnValue(r, len(r.Results)-1)
+				if engine.IsNilConst(ev) {
+					continue
+				}
+				// a possibly-failing return: after the pop, or under len(builders) == 0
+				nFail++
+				if engine.Before(pop, r) {
+					continue
+				}
+				emptyQueue := false
+				for _, cd := range engine.InstrConds(r) {
+					if bo, ok := cd.V.(*ssa.BinOp); ok {
+						if lc, ok := bo.X.(*ssa.Call); ok {
+							if lb, ok := lc.Call.Value.(*ssa.Builtin); ok && lb.Name() == "len" && isLoadOfField(lc.Call.Args[0], m.builders) {
+								k, _ := engine.ConstInt(bo.Y)
+								if k == 0 && ((bo.Op == token.EQL && cd.Pol) || (bo.Op == token.GTR && !cd.Pol) || (bo.Op == token.NEQ && !cd.Pol) || (bo.Op == token.LEQ && cd.Pol)) {
+									emptyQueue = true
+								}
+							}
+						}
+					}
+				}
+				if !emptyQueue {
+					okFail = false
+					at = r.Pos()
+				}
+			}
+		}
+		if pop == nil {
+			c.AnchorMissing(r3, "the store that takes the head builder off MessageQueue.builders")
+		} else {
+			if at == token.NoPos {
+				at = m.extract.Pos()
+			}
+			c.Decide(r3, engine.FuncName(m.extract)+"|fails-only-when-drained", at, okFail && nFail > 0,
+				"the extract step fails only when there are no builders, or after taking the head off",
+				"the extract step can fail while leaving a builder at the head of the queue: the run loop and the shutdown drain both stop in front of it, so messages queued behind it are never sent and never reported")
 		}
 	}
 
